@@ -38,8 +38,10 @@ def Kbd.popN : Nat → Kbd → Kbd
     | none => { k with flags := 0 }
     | some f => Kbd.popN n { flags := f, stack := k.stack.dropLast }
 
+/-- `CSI < n u`: pops `n` entries (the dispatcher supplies 1 for an omitted count; an explicit
+    0 pops nothing) -/
 def Kbd.pop (k : Kbd) (n : Int) : Kbd :=
-  Kbd.popN (if n ≤ 0 then 1 else n.toNat) k
+  Kbd.popN n.toNat k
 
 /-! ### events seen by the frontend / the application -/
 
@@ -60,7 +62,7 @@ structure Term where
   main : Scr
   alt : Scr
   onAlt : Bool := false
-  vflags : List Bool := List.replicate 6 false
+  vflags : List Bool := [false, true, false, false, false, false]   -- the cursor is shown until `?25l`
   vints : List Int := List.replicate 3 0
   vstrs : List Bytes := List.replicate 3 []
   kmain : Kbd := {}
